@@ -3,11 +3,11 @@ C08 driver: parses the case lines that the harness executes against the real dri
 (`model` mode) or the specification oracle on an implementation trace (`judge` mode).
 
 Case lines (shared with harness/c08/c08.c):
-  script o<k> create|init|mod|act|id <op>;<op>;...   the n-th such line is the script of the n-th invocation of that hook of
+  script o<k> create|init|mod|act|id|hbeat <op>;<op>;...   the n-th such line is the script of the n-th invocation of that hook of
                                               object k; all script lines come before the first command
   t <op>                                      master->do_op(op)   (top level)
-  snap | probe | gc
-op syntax (comma separated):  ld,<file> | cl,<file> | mv,o<a>,o<d> | mvs,o<a>,<file> | fis,<file> | pr,o<env>,o<t> | de,o<a> | ec,o<a> | dc,o<a> | ln,o<a>,<name> |
+  snap | probe | gc | tick
+op syntax (comma separated):  ld,<file> | cl,<file> | mv,o<a>,o<d> | mvs,o<a>,<file> | fis,<file> | pr,o<env>,o<t> | hbe,o<a> | hbd,o<a> | de,o<a> | ec,o<a> | dc,o<a> | ln,o<a>,<name> |
   fo,<file>[#<n>] | fl,<name> | aa,o<a>,<verb> | cmd,o<a>,<verb> | kp,o<a> | rd | err | mvarg | nop          <file> ::= b<k> | nx | bad
 -/
 import NV.Common.Proto
@@ -41,6 +41,8 @@ def parseOp (s : String) : Option Op :=
   | ["mv", a, d] => do some (.mv (← parseOid a) (← parseOid d))
   | ["mvs", a, b] => do some (.mvs (← parseOid a) (← parseBase b))
   | ["fis", b] => (parseBase b).map .fis
+  | ["hbe", a] => (parseOid a).map .hbe
+  | ["hbd", a] => (parseOid a).map .hbd
   | ["pr", e, t] => do some (.pr (← parseOid e) (← parseOid t))
   | ["de", a] => (parseOid a).map .de
   | ["ec", a] => (parseOid a).map .ec
@@ -59,7 +61,7 @@ def parseOp (s : String) : Option Op :=
 
 def parseHook (s : String) : Option Hook :=
   if s == "create" then some .create else if s == "init" then some .init else if s == "mod" then some .mod
-  else if s == "act" then some .act else if s == "id" then some .id else none
+  else if s == "act" then some .act else if s == "id" then some .id else if s == "hbeat" then some .hbeat else none
 
 structure Parsed where
   scripts : List ((Nat × Hook) × List Op) := []      -- in file order
@@ -81,6 +83,7 @@ def parseLine (p : Parsed) (line : String) : Parsed :=
     | some op => { p with cmds := Cmd.top op :: p.cmds }
     | none => { p with bad := line :: p.bad }
   | ["snap"] => { p with cmds := Cmd.snap :: p.cmds }
+  | ["tick"] => { p with cmds := Cmd.tick :: p.cmds }
   | ["probe"] => { p with cmds := Cmd.probe :: p.cmds }
   | ["gc"] => { p with cmds := Cmd.gc :: p.cmds }
   | _ => if line.startsWith "#" then p else { p with bad := line :: p.bad }
